@@ -184,7 +184,16 @@ func init() {
 var oddBytes = []string{"\x00", "\x01", " ", "\xff", "\t", "\n", ":", "/", "A", "x", "\x7f", "\u00a0"}
 
 func nearMiss(r *rng, s string) string {
-	switch r.intn(12) {
+	switch r.intn(15) {
+	case 12: // very long (buffers that grow, length guards)
+		return strings.Repeat(s+r.pick([]string{"", "/", ":", " "}), 8+r.intn(60))
+	case 13: // the naming pattern of the specifications: Modified <metric>
+		return "M" + s
+	case 14:
+		if len(s) > 1 && s[0] == 'M' {
+			return s[1:]
+		}
+		return "M" + strings.ToLower(s)
 	case 9: // an odd byte in front
 		return r.pick(oddBytes) + s
 	case 10: // an odd byte somewhere inside or at the end
